@@ -194,21 +194,6 @@ theorem same2_cleanupContexts (s : BSt) : Same2 s (Backend.cleanupContexts s) :=
 theorem FI.cleanupContexts (h : FI none pf s) : FI none pf (Backend.cleanupContexts s) :=
   h.same (same2_cleanupContexts s)
 
-def rqLate (tsNow : Option Nat) (st : Stmt) : Bool :=
-  match tsNow with | some t => decide (t < st.ts) | none => false
-
-theorem readQueue_succ' (inj : BSt → Nat → BSt) (tsNow : Option Nat) (i fuel total : Nat) (s : BSt) :
-    readQueue inj tsNow i (fuel + 1) total s =
-      if !(qPrepareRead s.cfg (s.th i).q).2 then rqFin (rqPrep s i) i total else
-      match (s.th i).qStmts with
-      | [] => rqFin (rqPrep s i) i total
-      | st :: rest =>
-        if rqLate tsNow st then rqFin (rqPrep s i) i total else
-        if total + st.size < (inj (rqMove s i st rest) 3).cfg.qcap ∧
-            ((inj (rqMove s i st rest) 3).th i).buf.length < (inj (rqMove s i st rest) 3).cfg.hard
-        then readQueue inj tsNow i fuel (total + st.size) (inj (rqMove s i st rest) 3)
-        else rqCommit (inj (rqMove s i st rest) 3) i := rfl
-
 theorem same2_rqCommit (s : BSt) (i : Nat) : Same2 s (rqCommit s i) := Same2.setTh s i _ ⟨rfl, rfl, rfl, rfl⟩
 theorem same2_rqFin (s : BSt) (i total : Nat) : Same2 s (rqFin s i total) := by
   unfold rqFin; split
@@ -265,7 +250,7 @@ theorem FI.readQueue (hi : InjOK2 inj) (tsNow : Option Nat) (i : Nat) (fuel : Na
   | zero => intro total s h; exact h
   | succ n ih =>
     intro total s h
-    rw [readQueue_succ']
+    rw [readQueue_succ]
     have hfin := fun tot => (h.same (same2_rqPrep s i)).same (same2_rqFin _ i tot)
     split
     · exact hfin total
